@@ -93,8 +93,10 @@ def run(facts, cg):
     iw = r_who.inner_writers(facts)
     for s in iw:
         fn = fn_name(facts, facts.bodies[[b.id for b in facts.bodies.values() if b.q == s['in']][0]])
-        if fn not in INNER_WRITERS:
-            finding('R-WHO(output-writer)', fn, 'new-writer:' + s['api'].split('::')[-1], '%s writes to the clone output at %s; only write_offset may' % (fn, s['at']))
+        # the output field is private to CloneOutput (E6 witness): every writer is one of its own methods; where each write goes
+        # and that the chunk leaves the index is R-SEEKWRITE's and R-REMOVE-ON-WRITE's business.  set_len belongs to the command.
+        if not (fn.startswith('bitar::clone_output::CloneOutput::') or (s['api'].endswith('set_len') and fn.startswith('bita::clone_cmd::'))):
+            finding('R-WHO(output-writer)', fn, 'new-writer:' + s['api'].split('::')[-1], '%s writes to the clone output at %s, outside the methods of CloneOutput' % (fn, s['at']))
     instances.append({'rule': 'R-WHO(output-writer)', 'sites': iw})
     if not iw:
         finding('R-WHO(output-writer)', '-', 'floor', 'no writer of CloneOutput::inner found (cannot decide)')
